@@ -565,6 +565,8 @@ class _Sim(object):
         if k == "ok":
             return
         self.fire("outcome_" + k)
+        if k == "kbi" and ev["kind"] == "hook":
+            self.fire("interrupt_in_hook:" + ev["name"])
         if k == "assert":
             ev["raised"] = "AssertionError"
             if out.get("msg") is None:
